@@ -187,50 +187,60 @@ def apply_edits(model, edits):
 # ------------------------------------------------------------------------------------------
 # strategies
 # ------------------------------------------------------------------------------------------
-def _content():
-    return st.one_of(gen.small_contents(), gen.small_contents(), gen.contents(max_size=24))
-
-
-def _segs(lo=1, hi=3):
-    return st.lists(_name(), min_size=lo, max_size=hi)
-
-
-def _name():
-    return st.one_of(st.sampled_from(SEG), st.sampled_from(SEG[:4]), gen.names())
-
-
-_WIDTH = [[1, 2, 2, 3, 3, 4], [1, 1, 2, 2, 3], [1, 1, 2], [1]]
+# strategies are built once: re-creating them per draw dominated the run time
+CONTENT = st.one_of(gen.small_contents(), gen.small_contents(), gen.contents(max_size=24))
+NAME = st.one_of(st.sampled_from(SEG), st.sampled_from(SEG[:4]), gen.names())
+SEGS13 = st.lists(NAME, min_size=1, max_size=3)
+SEGS23 = st.lists(NAME, min_size=2, max_size=3)
+IDX = st.integers(0, 40)
+_WIDTH = [st.sampled_from(w) for w in ([1, 2, 2, 3, 3, 4], [1, 1, 2, 2, 3], [1, 1, 2], [1])]
+NEST = st.sampled_from([True, False, False])
 
 
 @st.composite
 def _tree(draw, depth=0):
     """Nested name -> content | subtree, nesting more often than gen.trees (depth <= 4)."""
     out = {}
-    for _ in range(draw(st.sampled_from(_WIDTH[depth]))):
-        name = draw(_name())
+    for _ in range(draw(_WIDTH[depth])):
+        name = draw(NAME)
         if name in out:
             continue
-        if depth < 3 and draw(st.sampled_from([True, False, False])):
+        if depth < 3 and draw(NEST):
             out[name] = draw(_tree(depth + 1))
         else:
-            out[name] = draw(_content())
+            out[name] = draw(CONTENT)
     return out
 
 
-def _edit():
-    idx = st.integers(0, 40)
-    return st.one_of(
-        st.tuples(st.just("mod"), idx, _content()),
-        st.tuples(st.just("del"), idx),
-        st.tuples(st.just("add"), idx, _segs(1, 3), _content(), st.booleans()),
-        st.tuples(st.just("add"), idx, _segs(2, 3), _content(), st.just(False)),
-        st.tuples(st.just("mkdir"), idx, _segs(1, 3)),
-        st.tuples(st.just("f2d"), idx, st.lists(st.tuples(_segs(1, 3), _content()), min_size=0, max_size=2)),
-        st.tuples(st.just("d2f"), idx, _content()),
-        st.tuples(st.just("d2f"), idx, _content()),
-        st.tuples(st.just("rmtree"), idx),
-        st.tuples(st.just("chmod"), idx, st.booleans()),
-    )
+TREE = _tree()
+SMALL_TREE = gen.trees(max_files=3, max_depth=2, content=gen.small_contents())
+EDIT = st.one_of(
+    st.tuples(st.just("mod"), IDX, CONTENT),
+    st.tuples(st.just("del"), IDX),
+    st.tuples(st.just("add"), IDX, SEGS13, CONTENT, st.booleans()),
+    st.tuples(st.just("add"), IDX, SEGS23, CONTENT, st.just(False)),
+    st.tuples(st.just("mkdir"), IDX, SEGS13),
+    st.tuples(st.just("f2d"), IDX, st.lists(st.tuples(SEGS13, CONTENT), min_size=0, max_size=2)),
+    st.tuples(st.just("d2f"), IDX, CONTENT),
+    st.tuples(st.just("rmtree"), IDX),
+    st.tuples(st.just("chmod"), IDX, st.booleans()),
+)
+SEL16 = st.sampled_from(range(16))
+FORM = st.sampled_from(["explicit"] * 5 + ["lazy"] * 4 + ["implicit"])
+NEDITS = st.sampled_from([0, 1, 1, 2, 2, 2, 3, 3, 3, 4, 4, 5, 6])
+ONE_IN_25 = st.sampled_from([False] * 24 + [True])
+ONE_IN_4 = st.sampled_from([False] * 3 + [True])
+ONE_IN_6 = st.sampled_from([False] * 5 + [True])
+MISSING = st.lists(st.integers(0, 30), min_size=1, max_size=3)
+EXEC = st.lists(st.integers(0, 20), max_size=2)
+EMPTY_DIRS = st.lists(SEGS13, max_size=2)
+LAZY = st.lists(st.sampled_from(list(range(10)) * 3 + [10, 11]), min_size=1, max_size=3)
+PRIOR_MODE = st.sampled_from(["plain", "plain", "checkout"])
+ONE_IN_3 = st.sampled_from([False, False, True])
+STORE = st.sampled_from(ops.STORE_KINDS)
+DELETE = st.sampled_from([True, True, True, False])
+LINKS_ANY = st.sampled_from(LINKS)
+LINKS_COPY = st.sampled_from(COPY_LINKS)
 
 
 def _jsonable(x):
@@ -242,40 +252,38 @@ def _jsonable(x):
 @st.composite
 def cases(draw):
     # selectors are drawn with sampled_from: one_of over repeated branches does not weight them
-    sel = draw(st.sampled_from(range(16)))
+    sel = draw(SEL16)
     if sel == 0:
         tree = {}
     elif sel < 4:
-        tree = draw(gen.trees(max_files=3, max_depth=2, content=gen.small_contents()))
+        tree = draw(SMALL_TREE)
     else:
-        tree = draw(_tree())
-    form = draw(st.sampled_from(["explicit"] * 5 + ["lazy"] * 4 + ["implicit"]))
-    links = draw(st.sampled_from(COPY_LINKS if form == "implicit" else LINKS))
-    nedits = draw(st.sampled_from([0, 1, 1, 2, 2, 2, 3, 3, 3, 4, 4, 5, 6]))
-    edits = [draw(_edit()) for _ in range(nedits)]
-    if draw(st.sampled_from([False] * 24 + [True])):
+        tree = draw(TREE)
+    form = draw(FORM)
+    links = draw(LINKS_COPY if form == "implicit" else LINKS_ANY)
+    edits = [draw(EDIT) for _ in range(draw(NEDITS))]
+    if draw(ONE_IN_25):
         edits = [("wipe",)]
     missing = []
     update_meta = draw(st.booleans())
-    if links[0] != "symlink" and draw(st.sampled_from([False] * 4 + [True])):
-        missing = draw(st.lists(st.integers(0, 30), min_size=1, max_size=3))
-        update_meta = draw(st.sampled_from([False] * 5 + [True]))
+    if links[0] != "symlink" and draw(ONE_IN_4):
+        missing = draw(MISSING)
+        update_meta = draw(ONE_IN_6)
     return {
         "tree": tree,
-        "exec": draw(st.lists(st.integers(0, 20), max_size=2)),
-        "empty_dirs": draw(st.lists(_segs(1, 3), max_size=2)),
+        "exec": draw(EXEC),
+        "empty_dirs": draw(EMPTY_DIRS),
         "form": form,
-        "lazy": draw(st.lists(st.sampled_from(list(range(10)) * 3 + [10, 11]), min_size=1, max_size=3))
-        if form == "lazy" else [],
+        "lazy": draw(LAZY) if form == "lazy" else [],
         "edits": _jsonable(edits),
-        "prior_mode": draw(st.sampled_from(["plain", "plain", "checkout"])),
+        "prior_mode": draw(PRIOR_MODE),
         "links": links,
-        "via_odb": draw(st.sampled_from([False, False, True])),
-        "store": draw(st.sampled_from(ops.STORE_KINDS)),
+        "via_odb": draw(ONE_IN_3),
+        "store": draw(STORE),
         # implicit parents: nothing in the target tells apply to replace a prior *file* at the place
         # of an implicit directory unless deletion is on
-        "delete": True if form == "implicit" else draw(st.sampled_from([True, True, True, False])),
-        "relink": draw(st.sampled_from([False, False, False, True])),
+        "delete": True if form == "implicit" else draw(DELETE),
+        "relink": draw(ONE_IN_4),
         "update_meta": update_meta,
         "state": draw(st.booleans()),
         "missing": missing,
@@ -508,8 +516,8 @@ def run_case(case, ctx):  # noqa: C901, PLR0912, PLR0915
         affected = failed_dirs + gone_files
 
         def needs_create(k):
-            if case["relink"]:
-                return True
+            # relink also re-creates unchanged files, but which ones it treats as unchanged depends on
+            # the x bits found in the workspace; only the files that certainly must be created count
             return prior.files.get(k) != T.files[k]
 
         expect_reported = {_join(ws, n) for n in failed_dirs}
